@@ -64,7 +64,7 @@ REPL = [
  ("### 3.4 Recording targets (`recorders.py`, importable as `vfrec`)", "### 3.4 Recording targets (`/verif/vfrec.py`, importable as `vfrec`)"),
  ("* C07 asserts only \"tainted never runs / is never consumed\", never \"safe must run\".",
   "* C07 asserts only \"tainted never runs / is never consumed\", never \"safe must run\".\n\nAdded while building (each met as a false alarm of a first version of a check and corrected in the machinery):\n\n"
-  "* string-typed nodes (plain strings, `!xref`, `!eval`, …) merged **onto a function node** rename its target by the C13 table, and\n  mappings / lists merged onto it update its arguments: generators of C07, C10, C11, C14 keep function nodes away from such\n  collisions (dedicated keys or argument names) instead of treating the resulting evaluation errors as violations;\n"
+  "* plain strings merged **onto a function node** rename its target by the C13 table, and\n  mappings / lists merged onto it update its arguments: generators of C07, C10, C11, C14 keep function nodes away from such\n  collisions (dedicated keys or argument names) instead of treating the resulting evaluation errors as violations. (At first this\n  was extended to `!xref` / `!eval` / `!import` / f-string nodes, whose classes derive from `str` - three sub-agents pointed out that\n  the table says \"str\", and that one turned out to be a defect, R54. An avoided collision can hide a defect: three more\n  exclusions of this kind were withdrawn in the end - gap indices on keyword-only parameters in C13 (R48), aliased nodes below\n  differently flagged parents in C18 / C19 (R40), an explicit `!del` in front of a falsy scalar in C04 (R52);)\n"
   "* a protected older *list* under a newer mapping (C04b): index addressing is validated before priorities are looked at;\n  a list focus with protected mapping entries; both skipped and counted;\n"
   "* node *kinds* are not compared across dump→parse (C18: an f-string node is dumped as the equivalent eval node) and function\n  targets are compared by name, never by `repr()` (C19);\n"
   "* `{{…}}` metadata on `!path:abs(/x)` (the tag characters `/` are outside the `{{` rewriting) and strings containing `{{` (C01, C11);\n"
@@ -72,7 +72,9 @@ REPL = [
   "* originals whose containers are already inconsistent after a merge promotion were skipped by C19 - until a sub-agent's side note showed the inconsistency to be a defect of its own (R35); they are violations now;\n"
   "* C06 missing files: only the first include node with missing files is ever reached, so \"names every missing file\" is\n  asserted per include node;\n"
   "* found by the thorough tiers: an override mapping that addresses one list element twice (`{1: x, -1: y}`, C08), a referenced\n  container replaced by a later stage (dangling references, C10), two premerge operators aimed at one list (C16), a middle stage\n  overwriting the key the focus path runs through (C04b), block scalars inside flow collections (renderer, C01);\n"
-  "* a slot whose container kind changes between stages (list, then mapping) in the C07 layout."),
+  "* a slot whose container kind changes between stages (list, then mapping) in the C07 layout - met again in the last thorough run after\n  R44 had made `!del {}` remove a function node: the C07 layout now knows that the key is gone after such a stage;\n"
+  "* C17 compared the *types* of path components after the text round trip: the components of a tree loaded from yaml are scalar nodes\n  (int / str subclasses), the kinds are compared now;\n"
+  "* the runner itself: shards wrote to pipes that the parent read one after the other, so a shard printing more than a pipe holds\n  (warnings of the property library about an oversized strategy, in the event) stalled until its turn - thorough runs took an hour\n  per property until the output went to files."),
  ("`hypothesis.fuzz_one_input` could drive C01/C18 later; not planned.", "`hypothesis.fuzz_one_input` could drive C01/C18; not used."),
 ]
 for a_, b_ in REPL:
